@@ -304,10 +304,12 @@ def reference_block_cond(kind, norb, nelec, params, up, dn):
             # to the walker is a removable singularity of the formula
             worst = 1.0
             for Dk_u, Dk_d in zip(np.asarray(params["dets_up"]), np.asarray(params["dets_dn"])):
-                if na:
-                    worst = max(worst, float(np.linalg.cond(Dk_u[:, :na].T @ up)))
-                if nb:
-                    worst = max(worst, float(np.linalg.cond(Dk_d[:, :nb].T @ dn)))
+                # (amplification |D| |W| / sigma_min(D^T W), not the condition number: for a single electron the block is 1 x 1, its
+                # condition number is 1 whatever its size, yet its inverse is what the formula multiplies with)
+                for Dk, W, n in ((Dk_u, up, na), (Dk_d, dn, nb)):
+                    if n:
+                        sv = np.linalg.svd(Dk[:, :n].T @ W, compute_uv=False)
+                        worst = max(worst, float(np.linalg.norm(Dk[:, :n], 2) * np.linalg.norm(W, 2) / max(sv[-1], 1e-300)))
             return worst
     except np.linalg.LinAlgError:
         return float("inf")
